@@ -434,7 +434,7 @@ func lenPrefixed(b []byte) []byte {
 }
 
 var hostileKinds = []string{
-	"unknown-topic", "garbage-bytes", "unknown-any-type", "non-packet-type", "empty-envelope", "nil-payload-any", "length-over-wire-max",
+	"unknown-topic", "garbage-bytes", "unknown-any-type", "non-packet-type", "empty-envelope", "nil-payload-any", "length-over-wire-max", "frame-just-over-wire-max",
 	"length-huge", "zero-length-packets", "interleave-same-topic", "interleave-across-topics", "eofless-then-close", "eofless-then-cut",
 	"heartbeat-abuse", "eofless-reconnect", "overlimit", "overlimit-by-one", "at-limit",
 }
@@ -541,6 +541,12 @@ func caseHostile(res *results, name, kind string, rng *rand.Rand) (aimedAtObserv
 		s.forbid = "overlimit-accepted"
 		_ = c.a.writeFrame(f)
 		_ = c.a.writeFrame(make([]byte, 4096))
+	case "frame-just-over-wire-max":
+		// a complete, well-formed single-packet message whose wire frame is a little (1 byte .. 50 %) larger than the
+		// per-frame limit but far below the per-message limit: the victim must close without delivering it
+		partial()
+		s.forbid = "overlimit-accepted"
+		s.packet(t1, true, s.fragment(wireMax+[]int{0, 1, 4096, 500_000}[rng.Intn(4)]))
 	case "length-huge":
 		partial()
 		s.forbid = "overlimit-accepted"
